@@ -60,6 +60,7 @@ fn run(args: &[String]) -> Result<i32, String> {
             let n = for_each_case(input, |case| match engine.as_str() {
                 "ops" => ops::replay_case(case, &mut rep),
                 "prog" => scenario::replay_prog(case, &mut rep),
+                "scenario" => scenario::replay_scenario(case, &mut rep),
                 _ => rep.tool_error(format!("unknown engine {engine}")),
             })?;
             if n == 0 {
